@@ -345,6 +345,31 @@ func ruleLockStep(p *Prog, r *Result) {
 				iNames = ia.Index
 			}
 		})
+		// the name look-up may sit in a method of the plan that takes the field's index (cachedChunkColumn(i, ctx)):
+		// the index it is given at the call is the index the name is consulted under
+		if iNames == nil {
+			allInstrs(pf, func(in ssa.Instruction) {
+				c, ok := in.(*ssa.Call)
+				if !ok || iNames != nil {
+					return
+				}
+				g := c.Call.StaticCallee()
+				if g == nil || !p.InPkg(g) || g.Signature.Recv() == nil || typeName(deref(g.Signature.Recv().Type())) != "ProjectionPlan" {
+					return
+				}
+				allInstrs(g, func(x ssa.Instruction) {
+					ia, ok := x.(*ssa.IndexAddr)
+					if !ok || !p.derivesFromField(ia.X, "ProjectionPlan", "FieldNames", traceOpts{}) {
+						return
+					}
+					for k, pa := range g.Params {
+						if ia.Index == ssa.Value(pa) && k < len(c.Call.Args) {
+							iNames = c.Call.Args[k]
+						}
+					}
+				})
+			})
+		}
 		// destination of the evaluated column: a store into a slice element indexed by the same value
 		destOK := false
 		allInstrs(pf, func(in ssa.Instruction) {
